@@ -26,6 +26,17 @@ def junk_lines(src, rnd):
             out += [rnd.choice((b'', b'', b'  ', b'\t', b'   \t ')) for _ in range(rnd.randrange(1, 4))]
         elif r == 1:
             out.append(b'   -- note ' + bytes([rnd.randrange(48, 122)]))
+    if rnd.randrange(3) == 0 and out:
+        # one long run (dozens of lines) of comment lines and blank lines, each with its own indentation and trailing blanks
+        k = rnd.randrange(len(out) + 1)
+        run = []
+        for _ in range(rnd.randrange(9, 40)):
+            c = rnd.randrange(5)
+            if c == 0:
+                run.append(rnd.choice((b'', b'  ', b'\t', b' \t ')))
+            else:
+                run.append(b' ' * rnd.randrange(7) + (b'\t' if c == 1 else b'') + rnd.choice((b'-- n', b'--', b'// s', b'--[[b]]')) + bytes([rnd.randrange(48, 122)]) + b' ' * rnd.randrange(3))
+        out[k:k] = run
     return b'\n'.join(out)
 
 
